@@ -113,9 +113,62 @@ def middle_ok(rs, M: list, src: list) -> bool:  # noqa: ANN001
     return go_(0, 0)
 
 
+def frame_ok(rs, L1: list, B: list, src: list, A: list, deleting: bool) -> str | None:  # noqa: ANN001
+    """L1 must read: B exactly, then tokens taken in order from src (marks may only be lost), then A exactly -
+    with schema-required filler leaves allowed anywhere. Decided by DP over three phases. None = ok."""
+    import sys
+
+    sys.setrecursionlimit(max(sys.getrecursionlimit(), 4000))
+    n = len(L1)
+
+    @functools.lru_cache(maxsize=None)
+    def ph2(i: int, a: int) -> bool:
+        if i == n:
+            return a == len(A)
+        if a < len(A) and L1[i] == A[a] and ph2(i + 1, a + 1):
+            return True
+        return _is_filler(rs, L1[i]) and ph2(i + 1, a)
+
+    @functools.lru_cache(maxsize=None)
+    def ph1(i: int, s_: int) -> bool:
+        if ph2(i, 0):
+            return True
+        if i == n:
+            return False
+        if _is_filler(rs, L1[i]) and ph1(i + 1, s_):
+            return True
+        if deleting:
+            return False
+        for k_ in range(s_, len(src)):
+            if _sub_ok(src[k_], L1[i]) and ph1(i + 1, k_ + 1):
+                return True
+        return False
+
+    @functools.lru_cache(maxsize=None)
+    def ph0(i: int, b: int) -> bool:
+        if b == len(B) and ph1(i, 0):
+            return True
+        if i == n:
+            return False
+        if b < len(B) and L1[i] == B[b] and ph0(i + 1, b + 1):
+            return True
+        return _is_filler(rs, L1[i]) and ph0(i + 1, b)
+
+    if ph0(0, 0):
+        return None
+    # diagnose: are the surroundings at least there (as subsequences, in order)?
+    it = iter(L1)
+    if not all(any(x == y for y in it) for x in B + A):
+        return "surroundings: text/leaf nodes outside the range are missing or modified"
+    return "the content between the preserved surroundings is not an in-order subsequence of the slice (modulo fillers)"
+
+
 def check(case: dict, ctx: Ctx) -> None:
     from prosemirror.transform import Transform, replace_step
 
+    if not schemas.in_domain(case["schema"]):
+        ctx.label("skipped:schema-not-well-founded")
+        return
     lib, rs = schemas.get(case["schema"])
     doc_p = case["doc"]
     assert not V.node_problems(rs, doc_p)
@@ -185,23 +238,13 @@ def check(case: dict, ctx: Ctx) -> None:
     L1 = P.leafseq(T1)
     B = [t for t in T0[:frm] if t[0] in ("char", "leaf")]
     A = [t for t in T0[to:] if t[0] in ("char", "leaf")]
-    ok_frame = len(L1) >= len(B) + len(A) and L1[: len(B)] == B and (not A or L1[len(L1) - len(A) :] == A)
-    if not ok_frame:
-        fail_unless_known(
-            ctx,
-            ID,
-            "preserve:surroundings",
-            sub,
-            f"{k}({frm},{to}): text/leaf nodes outside the range changed: before {len(B)} after {len(A)} tokens, result {len(L1)}; result={got['c']}",
-        )
-        return
-    M = L1[len(B) : len(L1) - len(A)]
     src = _payload_leafseq(rs, op)
-    if not middle_ok(rs, M, src):
-        fail_unless_known(ctx, ID, "preserve:inserted", sub, f"{k}({frm},{to}): inserted part {M} is not a subsequence of the slice {src} (modulo fillers)")
+    deleting = k in ("delete", "delete_range")
+    why = frame_ok(rs, L1, B, src, A, deleting)
+    if why is not None:
+        clause = "preserve:surroundings" if why.startswith("surroundings") else ("delete:adds-text" if deleting else "preserve:inserted")
+        fail_unless_known(ctx, ID, clause, sub, f"{k}({frm},{to}): {why}; result leaves {[t[:2] for t in L1]}, before {[t[:2] for t in B]}, slice {[t[:2] for t in src]}, after {[t[:2] for t in A]}")
         return
-    if k in ("delete", "delete_range"):
-        require(not any(t[0] == "char" for t in M), "delete:adds-text", f"{k}({frm},{to}) left/added text inside the range: {M}")
     # non-triviality
     steps = tr.steps
     nt = False
